@@ -73,6 +73,8 @@ def gen_exp(rng, depth, rules, F, pats=None):
     if r < 0.70:
         return (Clo if rng.random() < .5 else PClo)(sub())
     if r < 0.74 and F['join']:
+        if F.get('assoc') and rng.random() < .3:
+            return Join(Tok(','), sub(), True, False, rng.choice(['left', 'right']))
         return Join(Tok(','), sub(), rng.random() < .5, rng.random() < .5)
     if r < 0.78 and F['la']:
         return (LA if rng.random() < .5 else NLA)(sub())
@@ -139,7 +141,7 @@ def derive(rng, g: Grammar, e, depth=0):
         n = rng.choice([0, 1, 2, 3]) if isinstance(e, Clo) else rng.choice([1, 2, 3])
         return join_parts(rng, [derive(rng, g, e.e, d) for _ in range(n)])
     if isinstance(e, Join):
-        n = rng.choice([0, 1, 2, 3]) if not e.positive else rng.choice([1, 2, 3])
+        n = rng.choice([0, 1, 2, 3]) if not (e.positive or e.assoc) else rng.choice([1, 2, 3, 4])
         parts = []
         for i in range(n):
             if i:
